@@ -238,7 +238,14 @@ func marching2(r *vlib.Run) {
 			mesh = model2d.MarchingSquaresSearch(s, delta, iters)
 		case 1:
 			api = "model2d.MarchingSquaresSearchFilter"
-			mesh = model2d.MarchingSquaresSearchFilter(s, func(*model2d.Rect) bool { return true }, delta, iters)
+			// a conservative filter that works in its own frame: it shifts the rectangle it was
+			// handed in place before looking at it (the rectangle is the callback's to use)
+			lo, hi := s.Min(), s.Max()
+			mesh = model2d.MarchingSquaresSearchFilter(s, func(rc *model2d.Rect) bool {
+				rc.MinVal, rc.MaxVal = rc.MinVal.Sub(lo), rc.MaxVal.Sub(lo)
+				ext := hi.Sub(lo)
+				return rc.MaxVal.X >= -delta && rc.MaxVal.Y >= -delta && rc.MinVal.X <= ext.X+delta && rc.MinVal.Y <= ext.Y+delta
+			}, delta, iters)
 		default:
 			if iters == 0 {
 				mesh = model2d.MarchingSquares(s, delta)
